@@ -122,6 +122,10 @@ def generate(rng, tier):
         ('readerr-in-comment', ['parse_fpfail 0 ' + hx(b'i = 2 /* abc')]),
         ('readerr-in-list', ['parse_fpfail 0 ' + hx(b'il = {1,')]),
         ('readerr-empty', ['parse_fpfail 0 .']),
+        ('tilde-unknown-user', ['passwd %s %s' % (hx(b'me'), hx(b'@R')), 'passwd_self ' + hx(b'me'), 'parse_buf 0 ' + hx(b'include("~nouser/x.conf")\ni = 2\n'),
+                                'parse_file 0 ' + hx(b'~nouser/y.conf'), 'parse_file 0 ' + hx(b'~nouser'), 'parse_buf 0 ' + hx(b'include("~")\n'),
+                                'parse_buf 0 ' + hx(b'include("~/none.conf")\n')]),
+        ('tilde-no-passwd', ['parse_buf 0 ' + hx(b'include("~nouser/x.conf")\n'), 'parse_file 0 ' + hx(b'~/y.conf'), 'tilde ' + hx(b'~zz')]),
         ('null-buffer', ['parse_buf 0 -']),
         ('empty-buffer', ['parse_buf 0 .']),
     ]
